@@ -101,4 +101,3 @@ func other(b []byte) []byte {
 	}
 	return c
 }
-
